@@ -35,8 +35,8 @@ CLAIMS = {
    "CBMC decides for every fragment type that scale multiplies every coordinate/radius/rx by the factor and nothing else (scales with <=8 significant bits: all products exact), and that canvas size is linear in scale with an 8x16 default cell.",
    "That both call sites call scale, and number formatting, are outside the claim."),
  "C12": ("tablesmt+kani", "§4 C12",
-   "z3 decides for every table character and every neighbourhood that emitted fragments stay within the canvas implied by the occupied cells; CBMC decides the size formula.",
-   "Quoted-text channel, endorsed circles (Lazy catalogue) and legends are outside the claim."),
+   "z3 decides for every table character and every neighbourhood that emitted fragments stay within the canvas implied by the occupied cells, and for every entry of the circle catalogue at every placement that the endorsed circle does; CBMC decides the size formula.",
+   "Quoted-text channel, endorsed arcs (Lazy arc catalogues) and legends are outside the claim; the catalogue circle's four arithmetic one-liners are shape-checked and re-stated in SMT, and validated against the real crate's rendering of all entries each run."),
  "C14": ("tablesmt+kani", "§4 C14",
    "z3 decides over all neighbourhoods: arrowheads fire only with a line on their tail side and have tip/base geometry as stated; corner arcs in box outlines are continuous and bulge outward; bullets become the documented circle exactly when attached. CBMC decides merge_circle yields a marker line ending at the bullet centre.",
    "Polygon->marker merging is commented out in svgbob; path rendering is outside the claim."),
